@@ -203,6 +203,14 @@ inline bool apply_step(MView& v, Step const& s) {
 		v.D += 1;
 		return true;
 	}
+	case S_HALVED: {  // (n0, rest) -> (2, n0/2, rest), same elements in the same order
+		if(v.D + 1 > MAXVD + 1 || n0 % 2 != 0 || n0 < 2) return false;
+		for(int k = v.D; k >= 2; --k) v.n[k] = v.n[k - 1];
+		v.n[0] = 2;
+		v.n[1] = n0 / 2;
+		v.D += 1;
+		return true;
+	}
 	case S_FLATTED: {
 		if(!flattable(v)) return false;
 		v.n[0] = v.n[0] * v.n[1];
